@@ -26,6 +26,7 @@ type tree struct {
 	namespace string            // the current namespace, for fully-qualifying template.
 	aliases   map[string]string // map from alias to namespace e.g. {"c": "a.b.c"}
 	inmsg     bool              // true while parsing children of a message node.
+	attrPos   map[string]ast.Pos // position of the value of each attribute last parsed by parseAttrs.
 }
 
 // SoyFile parses the input into a SoyFileNode (the AST).
@@ -270,7 +271,7 @@ func (t *tree) parseCss(token item) ast.Node {
 	var exprText = strings.TrimSpace(cmdText.val[:lastComma])
 	return &ast.CssNode{
 		token.pos,
-		t.parseQuotedExpr(exprText),
+		t.parseQuotedExpr(exprText, cmdText.pos-ast.Pos(len(cmdText.val))),
 		strings.TrimSpace(cmdText.val[lastComma+1:]),
 	}
 }
@@ -320,7 +321,7 @@ func (t *tree) parseCall(token item) ast.Node {
 		if data == "all" {
 			allData = true
 		} else {
-			dataNode = t.parseQuotedExpr(data)
+			dataNode = t.parseQuotedExpr(data, t.attrPos["data"])
 		}
 	}
 
@@ -414,7 +415,7 @@ func (t *tree) parseCallParams() []ast.Node {
 			t.expect(itemRightDelim, "param")
 			params = append(params, &ast.CallParamContentNode{initial.pos, key, value})
 		} else {
-			value = t.parseQuotedExpr(valueStr)
+			value = t.parseQuotedExpr(valueStr, t.attrPos["value"])
 			t.expect(itemRightDelimEnd, "param")
 			params = append(params, &ast.CallParamValueNode{initial.pos, key, value})
 		}
@@ -551,6 +552,7 @@ func inStringSlice(item string, group []string) bool {
 
 func (t *tree) parseAttrs(allowedNames ...string) map[string]string {
 	var result = make(map[string]string)
+	t.attrPos = make(map[string]ast.Pos)
 	for {
 		switch tok := t.next(); tok.typ {
 		case itemIdent:
@@ -559,6 +561,8 @@ func (t *tree) parseAttrs(allowedNames ...string) map[string]string {
 			}
 			t.expect(itemEquals, "attribute")
 			var attrval = t.expect(itemString, "attribute")
+			// (an item's pos is where it ends; the value starts after the opening quote)
+			t.attrPos[tok.val] = attrval.pos - ast.Pos(len(attrval.val)) + 1
 			var err error
 			result[tok.val], err = strconv.Unquote(attrval.val)
 			if err != nil {
@@ -809,10 +813,20 @@ func (t *tree) boolAttr(attrs map[string]string, key string, defaultValue bool) 
 }
 
 // parseQuotedExpr ignores the current lex/parse state and parses the given
-// string as a standalone expression.
-func (t *tree) parseQuotedExpr(str string) ast.Node {
-	var tt = &tree{lex: lexExpr("", str)}
+// string as a standalone expression.  base is the position of the string in
+// the input, so that the nodes get positions in the input, and errors in the
+// expression are reported with the name and position of the enclosing tag.
+func (t *tree) parseQuotedExpr(str string, base ast.Pos) ast.Node {
+	var tt = &tree{lex: lexExprAt("", str, base)}
 	defer tt.lex.drain()
+	defer func() {
+		if e := recover(); e != nil {
+			if _, ok := e.(runtime.Error); ok {
+				panic(e)
+			}
+			t.errorf("in expression %q: %v", str, e)
+		}
+	}()
 	return tt.parseExpr(0)
 }
 
